@@ -401,7 +401,40 @@ def zone_pool(tzenv):
                   ("CET-1CEST,M3.5.0,M10.5.0/3", False)):
         add("tzstr(%r,%r)" % (s, px), tz.tzstr(s, px))
     add("tzstr.instance('EST5EDT')", tz.tzstr.instance("EST5EDT"))
+    # the LABEL of a tzfile (filename= argument, path string, archive member name) is not part of its value: zones with the same
+    # label and different data must not compare equal ("equal zones report equal offsets at every instant")
+    import io
+    root = "/usr/share/zoneinfo"
+    def data(n):
+        q = os.path.join(root, n)
+        return open(q, "rb").read() if os.path.isfile(q) else None
+    for lab, names in (("same-label", ("Europe/Paris", "America/New_York", "Europe/Paris")),
+                       (os.path.join(root, "Europe/Paris"), ("Asia/Kolkata",)), ("", ("Europe/Dublin", "Asia/Kolkata"))):
+        for k, n in enumerate(names):
+            d = data(n)
+            if d is not None:
+                add("tzfile(BytesIO(%s)#%d,filename=%r)" % (n, k, lab), tz.tzfile(io.BytesIO(d), filename=lab))
+    for n in ("Europe/Paris", "America/New_York"):
+        d = data(n)
+        if d is not None:
+            z = _archive_member("Zone/Member", d)
+            if z is not None:
+                add("archive[Zone/Member<-%s]" % n, z)
     return zs
+
+
+def _archive_member(member, data):
+    """the entry `member` of a ZoneInfoFile archive built in memory around one TZif file"""
+    import io, tarfile
+    from dateutil.zoneinfo import ZoneInfoFile
+    buf = io.BytesIO()
+    with tarfile.open(fileobj=buf, mode="w:gz") as tf:
+        ti = tarfile.TarInfo(member); ti.size = len(data)
+        tf.addfile(ti, io.BytesIO(data))
+    buf.seek(0)
+    with warnings.catch_warnings():
+        warnings.simplefilter("ignore")
+        return ZoneInfoFile(buf).get(member)
 
 
 def has_weekday(z):
